@@ -65,6 +65,8 @@ func c10Scenarios(thorough bool) []c10Scenario {
 		{"update-commit-update", map[string]string{"t.csv": small}, []string{"UPDATE t SET b = 'z' WHERE a = 1; COMMIT; UPDATE t SET b = 'w' WHERE a = 2;"}, []string{"UPDATE t SET b = 'z' WHERE a = 1"}, nil},
 		{"update-tsv", map[string]string{"t.tsv": tsv}, []string{"UPDATE t SET b = 'z' WHERE a = 1"}, nil, nil},
 		{"update-json", map[string]string{"t.json": js}, []string{"UPDATE t SET b = 'z' WHERE a = 1"}, nil, nil},
+		// a JSON Lines table whose record count is a multiple of the writers' flush interval
+		{"update-jsonl-300", map[string]string{"t.jsonl": strings.Repeat("{\"a\":\"1\",\"b\":\"x\"}\n{\"a\":\"2\",\"b\":\"y\"}\n", 150)}, []string{"UPDATE t SET b = 'z' WHERE a = 1"}, nil, nil},
 		// the table is a symbolic link: to a file in the same directory, to a file in another directory
 		{"update-through-link", map[string]string{"real.csv": big}, []string{"DELETE FROM t WHERE a = 1"}, nil, map[string]string{"t.csv": "real.csv"}},
 		{"update-through-link-to-other-directory", map[string]string{"store/real.csv": small}, []string{"UPDATE t SET b = 'z' WHERE a = 1"}, nil, map[string]string{"t.csv": "store/real.csv"}},
@@ -276,6 +278,25 @@ func c10Reference(c *core.Ctx, dir string, sc c10Scenario, mo string) ([]procx.T
 		if isControl(n) {
 			c.Violate("leftover-after-complete-run", fmt.Sprintf("scenario %s: %s remains after a complete run", sc.Name, n), c10Payload{Scenario: sc, MapOrder: mo})
 		}
+	}
+	// the "new contents" of the oracle are what the complete run wrote: they must be COMPLETE - a fresh process reads
+	// from the committed file exactly what the transaction itself saw just before it committed
+	if mo == "" && len(sc.Args) == 1 {
+		for n := range sc.old() {
+			if strings.Contains(n, "/") {
+				continue
+			}
+			tbl := strings.TrimSuffix(n, filepath.Ext(n))
+			c10Prepare(dir, sc)
+			inTx := procx.Exec(procx.Run{Dir: dir, Args: []string{"-q", "-f", "CSV", strings.TrimRight(strings.TrimSpace(sc.Args[0]), ";") + "; SELECT * FROM " + tbl + ";"}})
+			fresh := procx.Exec(procx.Run{Dir: dir, Args: []string{"-q", "-f", "CSV", "SELECT * FROM " + tbl}})
+			if inTx.Exit == 0 && (fresh.Exit != 0 || fresh.Stdout != inTx.Stdout) {
+				c.Violate("committed-file-is-not-what-the-transaction-saw:"+sc.Name, fmt.Sprintf("scenario %s, no crash: after the commit a fresh process reads %q from %s (exit %d); the transaction saw %q before committing",
+					sc.Name, clip(fresh.Stdout), n, fresh.Exit, clip(inTx.Stdout)), c10Payload{Scenario: sc, MapOrder: mo})
+			}
+		}
+		c10Prepare(dir, sc)
+		procx.Exec(procx.Run{Dir: dir, Args: sc.Args})
 	}
 	return out.Trace, snap, mid, true
 }
